@@ -252,6 +252,22 @@ impl<'tcx> Ctx<'tcx> {
                     let _ = write!(o, ",\"v\":{}", v);
                 }
             }
+            ty::Adt(adt, _) if adt.is_enum() && adt.variants().iter().all(|v| v.fields.is_empty()) => {
+                let env = TypingEnv::post_analysis(tcx, body_did);
+                if let Some(si) = c.const_.try_eval_scalar_int(tcx, env) {
+                    let size = si.size();
+                    let raw = si.to_uint(size);
+                    for (vi, v) in adt.variants().iter_enumerated() {
+                        let dv = adt.discriminant_for_variant(tcx, vi);
+                        let mask: u128 = if size.bits() >= 128 { u128::MAX } else { (1u128 << size.bits()) - 1 };
+                        if (dv.val & mask) == (raw & mask) {
+                            self.adts.insert(adt.did());
+                            let _ = write!(o, ",\"variant\":{},\"adt\":{}", jstr(&v.name.to_string()), jstr(&self.key(adt.did())));
+                            break;
+                        }
+                    }
+                }
+            }
             _ => {}
         }
         if let mir::Const::Unevaluated(u, _) = c.const_ {
